@@ -116,6 +116,15 @@ def plan_jobs(prop, tier, rnd):
         for j in range(k):
             s = names[(i + j) % len(names)] if rnd.random() < 0.7 else rnd.choice(names)
             assets[f"B{j + 1}"] = rnd.choice(pools[s])
+        if prop == "C14" and "T" in pools:
+            # every transaction type in every table that takes it, in turn (covering all 14 types does not depend on the seed)
+            out_ty = ["sell", "gift", "donate", "fee", "lost", "staking"][i % 6]
+            in_ty = ["airdrop", "hardfork", "income", "interest", "mining", "staking", "wages", "buy", "gift", "donate"][i % 10]
+            want = [h for h in pools["T"] if any(x["cls"] == "out" and x["type"] == out_ty for x in h) and any(x["cls"] == "in" and x["type"] == in_ty for x in h)]
+            if not want:
+                want = [h for h in pools["T"] if any(x["cls"] == "out" and x["type"] == out_ty for x in h)]
+            if want:
+                assets["B1"] = rnd.choice(want)
         if prop == "C13" and i % 4 == 1:
             # a lot consumed, then another lot, then the first one again (possible under LIFO / HIFO / LOFO): several acquisitions and disposals
             def revisits(h):
